@@ -799,10 +799,31 @@ def bitfun(name: str, a: Any, b: Any) -> Any:
         a = z3.IntVal(a)
     if not isinstance(b, z3.ExprRef):
         b = z3.IntVal(b)
+    a, b = z3.simplify(a), z3.simplify(b)
+    if z3.is_int_value(a) and z3.is_int_value(b):
+        # two concrete operands: the value itself (the other side of a comparison may have folded it)
+        x, y = a.as_long(), b.as_long()
+        return z3.IntVal({"and": x & y, "or": x | y, "xor": x ^ y}[name])
     f = _BITFUN[name]
     t = f(a, b)
     if _CUR is not None:
         _CUR.solver.add(t == f(b, a))  # commutativity instance
+        # identities that hold for every integer: they connect an application whose operand is only
+        # semantically 0 / -1 / equal to the other operand with the folded form on the other side
+        if name == "and":
+            _CUR.solver.add(z3.Implies(a == 0, t == 0), z3.Implies(b == 0, t == 0), z3.Implies(a == -1, t == b), z3.Implies(b == -1, t == a), z3.Implies(a == b, t == a))
+        elif name == "or":
+            _CUR.solver.add(z3.Implies(a == 0, t == b), z3.Implies(b == 0, t == a), z3.Implies(a == -1, t == -1), z3.Implies(b == -1, t == -1), z3.Implies(a == b, t == a))
+        else:
+            _CUR.solver.add(z3.Implies(a == 0, t == b), z3.Implies(b == 0, t == a), z3.Implies(a == -1, t == -b - 1), z3.Implies(b == -1, t == -a - 1), z3.Implies(a == b, t == 0))
+        # one concrete operand c: an application with symbolic operands that happen to equal small
+        # constants must agree with the concrete value
+        for x_, y_ in ((a, b), (b, a)):
+            if z3.is_int_value(x_) and -16 <= x_.as_long() <= 16:
+                c_ = x_.as_long()
+                for k_ in range(-2, 17):
+                    v_ = {"and": c_ & k_, "or": c_ | k_, "xor": c_ ^ k_}[name]
+                    _CUR.solver.add(z3.Implies(y_ == k_, t == v_))
     return t
 
 
